@@ -355,6 +355,8 @@ def find_urls(data: bytes) -> list[Node]:
         if not is_url(group):
             continue
         normalized, obfuscation = normalize_percent_encoding(group)
+        if not is_url(normalized):
+            continue  # decoding an escape can invalidate a bracketed host, and the normalised text is what gets parsed
         out.append(
             Node(
                 URL_TYPE,
